@@ -420,6 +420,18 @@ func neStep(c *neConfig, d *Device, out chan midi.Event, sigs chan os.Signal, s 
 		} else {
 			s.oheld = press
 		}
+		// the swallowed key is physically down: the pressed-key set must say so, or a later re-press of another
+		// sequence key would not complete the sequence again
+		for k := 0; k < c.K; k++ {
+			_, in := d.keyTracker[noteCodes[k]]
+			verifrt.Assert(in == s.held[k], "INVk: pressed-key set equals the held keys")
+		}
+		for a := 0; a < nActions; a++ {
+			_, in := d.keyTracker[actionCodes[a]]
+			verifrt.Assert(in == s.aheld[a], "INVk: pressed-key set equals the held keys")
+		}
+		_, inO := d.keyTracker[otherCode]
+		verifrt.Assert(inO == s.oheld, "INVk: pressed-key set equals the held keys")
 		return sounding
 	}
 	verifrt.Assert(nsig == 0, "C14: no termination signal unless all sequence keys are down")
